@@ -107,6 +107,13 @@ pub enum MFault {
         #[serde(with = "hexbytes")]
         bytes: Vec<u8>,
     },
+    /// a multi-byte field reads back as something else (garbage sector / corrupted header field)
+    #[serde(rename = "M-FIELD")]
+    Field {
+        at: usize,
+        #[serde(with = "hexbytes")]
+        bytes: Vec<u8>,
+    },
     /// adversarial non-minimal re-encoding of record `rec` (format specific)
     #[serde(rename = "M-PAD0")]
     Pad0 { rec: usize },
@@ -121,6 +128,7 @@ impl MFault {
             MFault::Zero { .. } => "M-ZERO",
             MFault::Dup { .. } => "M-DUP",
             MFault::Tail { .. } => "M-TAIL",
+            MFault::Field { .. } => "M-FIELD",
             MFault::Pad0 { .. } => "M-PAD0",
         }
     }
